@@ -209,6 +209,23 @@ def equivalent_variants(rnd, call):
         yield "into_bench", dict(call, sub_spec=spec)
 
 
+def clashing_variants(rnd, c0, call):
+    """The replacement reuses, for one of its own gates, the label of a gate of the host (inside or outside the
+    replaced region): either a documented error or a correct result, never a silently overwritten host gate."""
+    ins, gates, outs = call["sub_spec"]
+    host = [l for l in c0.gates if l not in call["inputs_mapping"]]
+    internal = [g[0] for g in gates]
+    if not host or not internal:
+        return
+    for _ in range(2):
+        victim, new = rnd.choice(internal), rnd.choice(host)
+        if new in internal or new in ins:
+            continue
+        r = lambda l: new if l == victim else l  # noqa: E731
+        spec = (list(ins), [(r(l), t, [r(o) for o in ops]) for l, t, ops in gates], [r(o) for o in outs])
+        yield "label-clash", dict(call, sub_spec=spec, outputs_mapping={k: r(v) for k, v in call["outputs_mapping"].items()})
+
+
 def unit(p, item, tier, seed):
     s = item
     rnd = random.Random(s)
@@ -234,7 +251,7 @@ def unit(p, item, tier, seed):
             call = mutators.random_call(rnd, c0, step=k, kinds=["replace_subcircuit"])
             if call is None:
                 continue
-            for flavour, cl in equivalent_variants(rnd, call):
+            for flavour, cl in list(equivalent_variants(rnd, call)) + list(clashing_variants(rnd, c0, call)):
                 check_replace_subcircuit(p, name, c0, cl, flavour)
 
 
